@@ -183,4 +183,11 @@ def selftest():
         V("unassign-keeps-vehicle", REQ, "updated = replace(self, dispatched_vehicle=None, dispatched_vehicle_time=None)", "updated = replace(self, dispatched_vehicle_time=None)", rule="DU.setter"),
         V("twin-is-none", DISP, "not_already_dispatched = not r.dispatched_vehicle", "not_already_dispatched = r.dispatched_vehicle is None", kind="twin"),
         V("twin-exit-spelling", DT, "        if request is None:\n            # request doesn't exist, doesn't need to be updated", "        if not request:\n            # request doesn't exist, doesn't need to be updated", kind="twin"),
-    ]
+    ] + _auto()
+
+
+def _auto():
+    from ..loader import Repo
+    from .. import autovariants as av
+    return av.resource_variants(Repo(), KINDS)
+
